@@ -601,6 +601,14 @@ func scenarios(tier string) []*explore.Scenario {
 			add(scen{Proto: proto, Steps: []step{{Kind: "init"}, {Kind: "start", ID: 1}, {Kind: "close-frame"}}, Script: script, InitFunc: "accept-detached"}, &one)
 		}
 		add(scen{Proto: proto, Steps: []step{{Kind: "init"}, {Kind: "start", ID: 1}, {Kind: "stop", ID: 1}, {Kind: "await-cancel", ID: 1}}, Script: "block", InitFunc: "accept-detached"}, &one)
+		// two closers overlapping: the server context is cancelled while a client frame makes the
+		// server close the connection as well (the close callback still fires exactly once)
+		for _, sc := range []string{"plain", "reason"} {
+			add(scen{Proto: proto, Steps: []step{{Kind: "init"}, {Kind: "start", ID: 1}, {Kind: "invalid"}}, Script: "block", InitFunc: "none", SrvCancel: sc}, &two)
+			if proto == "graphql-ws" {
+				add(scen{Proto: proto, Steps: []step{{Kind: "init"}, {Kind: "start", ID: 1}, {Kind: "terminate"}}, Script: "block", InitFunc: "none", SrvCancel: sc}, &two)
+			}
+		}
 		// two operations emitting on one connection: every frame carries its own operation's data
 		for _, script := range []string{"emit-end", "emit2-end"} {
 			add(scen{Proto: proto, Steps: []step{{Kind: "init"}, {Kind: "start", ID: 1}, {Kind: "start", ID: 2}}, Script: script, InitFunc: "none"}, &two)
